@@ -30,7 +30,7 @@ package storage
 //@ func hashMatchers
 //@   requires matchersOK(matchers)
 //@   at line "writeInt64(sb, mint)" assume digest-of-matcher-list: sb.acc == mlistAcc(matchers.ptr, matchers.off, len(matchers))
-//@   ensures[C02,C09,C16] key-covers-window-step-and-hints: result == keyOf(matchers, mint, maxt, hints)
+//@   ensures[C02,C03,C07,C09,C16] key-covers-window-step-and-hints: result == keyOf(matchers, mint, maxt, hints)
 //@   loop 0 invariant sb != nil
 //@ func writeInt64
 //@   requires sb != nil
@@ -63,12 +63,12 @@ package storage
 //@ func (*SelectorPool).GetSelector
 //@   requires poolInv(p) && matchersOK(matchers) && hints.Start == mint && hints.End == maxt
 //@   ensures pool-kept: poolInv(p)
-//@   ensures[C02,C09,C16,C17] selector-as-requested: istype(result, *engstore.seriesSelector) &&
+//@   ensures[C02,C07,C09,C16,C17] selector-as-requested: istype(result, *engstore.seriesSelector) &&
 //@       selectorFor(cast(result, *engstore.seriesSelector), matchers, mint, maxt, hints)
 //@ func (*SelectorPool).GetFilteredSelector
 //@   requires poolInv(p) && matchersOK(matchers) && matchersOK(filters) && hints.Start == mint && hints.End == maxt
 //@   ensures pool-kept: poolInv(p)
-//@   ensures[C03,C09,C16,C17] selector-as-requested: istype(result, *engstore.filteredSelector) &&
+//@   ensures[C03,C07,C09,C16,C17] selector-as-requested: istype(result, *engstore.filteredSelector) &&
 //@       selectorFor(cast(result, *engstore.filteredSelector).selector, matchers, mint, maxt, hints)
 //@   ensures[C09] filter-as-requested: cast(result, *engstore.filteredSelector).filter != nil && cast(result, *engstore.filteredSelector).once == 0
 
